@@ -14,7 +14,9 @@ RULE = ("harness c15 at the crate's test parameter set (TestContext: N=256, rank
         "content; 15021-15031 all eleven word operations on boundary x boundary words, shift amounts 0..63, single bits, "
         "random (encrypt -> prepare through circuit bootstrapping -> op -> decrypt, and the plain Rust result); 15040 random "
         "programs of 2-3 operations chained through re-preparation; 15050-15054 blind rotation / selection / retrieval (+rev) "
-        "/ streaming retriever / cswap with directly encrypted and circuit-bootstrapped selectors; 15060/15061 circuit "
+        "/ streaming retriever (15055: allocated for 1 and 2 inputs, a panic reported as a value) / cswap with directly encrypted "
+        "and circuit-bootstrapped selectors; 15062 circuit bootstrapping with keys generated per record at gadgets whose "
+        "lookup-table coefficients reach the top of i64; 15060/15061 circuit "
         "bootstrapping of every message in constant and exponent mode (both branches of post_process), every GGSW cell "
         "classified by GGSW::noise against every candidate message and column 0 decrypted and decoded. "
         "Records whose API call panics (asserts on out-of-range indices, bit_count = 0, threads = 0) are predicted as "
@@ -24,12 +26,11 @@ ASSUMPTIONS = [
     "measured by the harness (coverage.noise_margin) and not proved",
     "cmux_selects (C04), key-switch / sample-extract / trace / pack / rotate (C02, C03), decryption (C01), blind rotation "
     "(C14) and GGLWE->GGSW expansion (C04) enter C15_word_op_correct / C15_circuit_bootstrap_cells as named hypotheses",
-    "C15_circuit_bootstrap_cells is conditional on cbt_rows_ok (the ideal rows decode to the message): proved for ALL "
-    "parameter sets in constant mode (C15_cbt_rows_ok_constant; the mode prepare uses), by vm_compute at the test parameter "
-    "set in exponent mode (C15_cbt_rows_ok_partial, both branches of post_process); C15_cbt_rows_ok_full (exponent mode, "
-    "general parameters) is stated, not proved",
-    "GLWEBlindRetriever and glwe_blind_retrieval_statefull_rev, glwe_blind_rotation: model + correspondence only "
-    "(C15_retriever_index_full stated, not proved)",
+    "C15_circuit_bootstrap_cells is conditional on cbt_rows_ok (the ideal rows decode to the message), which is PROVED for all "
+    "parameter sets the code's asserts accept, both modes (C15_cbt_rows_ok_full)",
+    "cmux_selects is discharged at phase level (C15_heval_refines_eval_stale_phase over C04's phase equation, "
+    "C15_cmux_phase_from_C04): what remains is the bound BE on one cmux's error polynomial and quiet_c of every intermediate",
+    "glwe_blind_retrieval_statefull_rev: model + correspondence only",
     "release-mode integer semantics",
 ]
 TRUSTED = [
@@ -61,8 +62,8 @@ def _bitlen(x):
 
 
 def classify(record):
-    """key of the known-finding class of a failing record, else None.
-    (C15:cbt.exponent.trace_branch.row_alias was repaired by /repo commit b689fc8; no known class is left.)"""
+    """key of the known-finding class of a failing record, else None.  All three C15 classes found so far are repaired in /repo
+    (b689fc8 trace level of post_process, a84e8a5 LUT coefficient overflow assert, 38e6b0c retriever alloc size 1)."""
     return None
 
 
